@@ -1015,7 +1015,7 @@ def check_C14(tier, seed):
     n, k = sizes(tier, (40, 3), (400, 4))
     progs = (F.random_general(seed, n, 100, k=k, nsets=(1, 2, 2), nrules=(1, 2, 3, 4), p_ctx=0.2,
                               p_eoi=0.2, menu_sizes=(1, 2), p_fal=0.2, sigma=(F.A, F.B, F.C, 233, 28450))
-             + F.fixed_mm(5000)[:6])
+             + F.fixed_mm(5000)[:6] + F.builtin_family(7000, k=k))
     byid = {p.id: p for p in progs}
     fr = replay_family("C14", progs, ctors=(0, 1, 2, 3), workers=8 if tier == "quick" else 14,
                        tlc_timeout=700 if tier == "quick" else 3300)
@@ -1075,6 +1075,7 @@ def check_C15(tier, seed):
     n, k = sizes(tier, (30, 3), (300, 4))
     progs = F.random_general(seed, n, 100, k=k, nsets=(1, 2, 2), nrules=(1, 2, 3), p_ctx=0.2,
                              p_eoi=0.2, menu_sizes=(1, 2), p_fal=0.25)
+    progs += F.builtin_family(7000, k=k)
     byid = {p.id: p for p in progs}
     fr = replay_family("C15", progs, ctors=(0, 2), clone_points=True,
                        workers=8 if tier == "quick" else 14,
@@ -2115,7 +2116,8 @@ def check_C02(tier, seed):
     # larger random ones: overlapping ranges, `_` mixed with ranges and literals, nested repetition
     big = F.random_general(seed, sizes(tier, 150, 3000), 200000, k=3, nsets=(1, 1, 2), nrules=(1, 2, 3),
                            depth=4, p_ctx=0.15, p_eoi=0.15, p_var=0.3, menu_sizes=(1,))
-    allp = progs + big
+    classes = class_family(seed, sizes(tier, 120, 1500), 300000)
+    allp = progs + big + classes
     byid = {p.id: p for p in allp}
     ws, dumps, outs, ok, err = dump_programs("C02", allp, nb=14)
     pairs = []
